@@ -6,6 +6,7 @@ package main
 
 import (
 	"fmt"
+	"os"
 	"go/constant"
 	"go/token"
 	"go/types"
@@ -18,6 +19,12 @@ import (
 type pathEnd struct {
 	kind string // assume, unsupported, unwind, steps, infeasible, deadlock, panic, internal
 	msg  string
+}
+
+// redirects replace an environment function by a harness-runtime function of the
+// same package (the inflater stub).
+var redirects = map[string]string{
+	"github.com/paulmach/osm/osmpbf.zlibReader": "vZOpen",
 }
 
 type opaqueCall struct{}
@@ -281,6 +288,9 @@ func posStr(prog *ssa.Program, p token.Pos) string {
 }
 
 func (in *Interp) site(fr *Frame, ins ssa.Instruction) string {
+	if !ins.Pos().IsValid() && os.Getenv("SYMGO_DEBUG") != "" {
+		return fr.fn.String() + "@[" + ins.String() + "]"
+	}
 	return fr.fn.String() + "@" + posStr(in.prog, ins.Pos())
 }
 
@@ -451,6 +461,12 @@ func (in *Interp) callFn(g *Goroutine, fn *ssa.Function, args []Value, fv []Valu
 	name := fn.String()
 	if o := fn.Origin(); o != nil {
 		name = o.String()
+	}
+	if to, ok := redirects[name]; ok && fn.Pkg != nil {
+		if rf := fn.Pkg.Func(to); rf != nil {
+			in.stubsHit["redirect:"+name+" -> "+to]++
+			fn = rf
+		}
 	}
 	if intr, ok := intrinsics[name]; ok {
 		v, pushed := in.runIntrinsic(intr, &callCtx{g: g, fn: fn, args: args, retTo: retTo})
@@ -1120,6 +1136,13 @@ func (in *Interp) execSlice(g *Goroutine, fr *Frame, x *ssa.Slice) {
 		}
 		// fork over [0,maxv] plus out of range
 		w := t.sort.W
+		if maxv > 4096 {
+			inRange := in.tt.Cmp(OpUle, t, in.tt.Const(w, uint64(maxv)))
+			if !in.branch(inRange) {
+				return -1, true
+			}
+			in.unsupported("symbolic slice bound over a range of %d values", maxv)
+		}
 		conds := make([]*Term, 0, maxv+2)
 		for i := 0; i <= maxv; i++ {
 			conds = append(conds, in.tt.Eq(t, in.tt.Const(w, uint64(i))))
@@ -1255,6 +1278,7 @@ func (in *Interp) lookupMethod(t types.Type, m *types.Func) *ssa.Function {
 }
 
 func (in *Interp) execCall(g *Goroutine, fr *Frame, x ssa.Value, c *ssa.CallCommon, ins ssa.Instruction) {
+	p0 := g.panic
 	fv, args := in.prepareCall(g, fr, c)
 	if fv == nil {
 		return
@@ -1280,7 +1304,7 @@ func (in *Interp) execCall(g *Goroutine, fr *Frame, x ssa.Value, c *ssa.CallComm
 		}
 	case BuiltinV:
 		v := in.builtin(g, f.b.Name(), args, c)
-		if g.panic == nil && x != nil {
+		if g.panic == p0 && x != nil {
 			in.set(fr, x, v)
 		}
 	case *Closure:
@@ -1290,7 +1314,7 @@ func (in *Interp) execCall(g *Goroutine, fr *Frame, x ssa.Value, c *ssa.CallComm
 		}
 		nframes := len(g.frames)
 		v, done := in.callFn(g, f.fn, args, f.fv, x)
-		if done && len(g.frames) == nframes && g.frames[len(g.frames)-1] == fr && g.panic == nil {
+		if done && len(g.frames) == nframes && g.frames[len(g.frames)-1] == fr && g.panic == p0 {
 			in.set(fr, x, v)
 		}
 	default:
